@@ -92,6 +92,39 @@ fn one_case(run: &Run, case: u64) {
     for _ in 0..n_mut {
         descs.push(tree::mutate(&mut rng, &mut spec, &mut clock, &p, &mut st, &mut grave));
     }
+    // a kind swap that keeps mode and owner (so only the kind distinguishes old and new):
+    // dir -> file, dir -> symlink (for a 0777 directory), file -> dir, symlink -> file/dir
+    if rng.chance(1, 2) {
+        let keys: Vec<String> = spec.keys().filter(|k| k.as_str() != "/").cloned().collect();
+        if !keys.is_empty() {
+            let k = rng.pick(&keys).clone();
+            let old_node = spec[&k].clone();
+            let under: Vec<String> = spec.keys().filter(|p| tree::is_under(p, &k)).cloned().collect();
+            for p in under {
+                spec.remove(&p);
+            }
+            let mut n = match old_node.kind {
+                Kind::Dir => {
+                    if old_node.mode == 0o777 || rng.chance(1, 3) {
+                        tree::Node::symlink("swapped-target")
+                    } else {
+                        tree::Node::file(tree::gen_content(&mut rng, 7))
+                    }
+                }
+                Kind::File => tree::Node::dir(),
+                Kind::Symlink => {
+                    if rng.chance(1, 2) { tree::Node::file(tree::gen_content(&mut rng, 5)) } else { tree::Node::dir() }
+                }
+            };
+            // symlinks always stat as 0777: give the other side that mode when one is involved
+            n.mode = if n.kind == Kind::Symlink || old_node.kind == Kind::Symlink { 0o777 } else { old_node.mode };
+            n.uid = old_node.uid;
+            n.gid = old_node.gid;
+            (n.mtime_s, n.mtime_ns) = clock.next(&mut rng);
+            descs.push(format!("kind swap keeping mode and owner: {k} {:?} -> {:?}", old_node.kind, n.kind));
+            spec.insert(k, n);
+        }
+    }
     // chown mutation (root only)
     if tree::is_root() && rng.chance(1, 3) {
         let keys: Vec<String> = spec.keys().filter(|k| k.as_str() != "/").cloned().collect();
